@@ -3,6 +3,7 @@ package drivers
 import (
 	"encoding/json"
 	"math/rand"
+	"time"
 
 	"verifharness/abs"
 
@@ -101,6 +102,89 @@ func Answer(a Args) error {
 		c := ansCase{Req: ansHdr{Flags: r.Intn(256), Cmd: abs.B3(k[0]), App: abs.B4(k[1]), HbH: abs.B4(r.Uint32()), E2E: abs.B4(r.Uint32())}, RC: []int{0, 2001, 3001, 5012, 1 + r.Intn(1<<30)}[r.Intn(5)]}
 		id++
 		out.Emit(runAnswer(id, &c))
+	}
+	return nil
+}
+
+// SMAnswer (C16, state machine half): CEA (success and each failure path) and DWA built
+// by a real server state machine over memnet, for boundary and random identifiers.
+func SMAnswer(a Args) error {
+	out, err := NewOut(a.Out)
+	if err != nil {
+		return err
+	}
+	defer out.Close()
+	r := rand.New(rand.NewSource(a.Seed))
+	ids := []uint32{0, 1, 1 << 31, 0xffffffff}
+	kinds := []struct {
+		name string
+		rc   int
+	}{{"cer_ok", 2001}, {"cer_bad", 5010}, {"cer_noid", 5012}, {"cer_sec", 5017}}
+	id := 0
+	one := func(kind string, rc int, hbh, e2e uint32, pbit bool) {
+		s := newSMServer(srvSettings, "", nil)
+		defer s.shutdown()
+		b := gateMsg(kind, 0)
+		// identifiers and the proxiable bit are patched into the serialised request
+		put32 := func(off int, v uint32) { b[off], b[off+1], b[off+2], b[off+3] = byte(v>>24), byte(v>>16), byte(v>>8), byte(v) }
+		put32(12, hbh)
+		put32(16, e2e)
+		if pbit {
+			b[4] |= 0x40
+		}
+		s.Conn.Feed(b)
+		s.Conn.WaitOut(20, 3*time.Second)
+		s.Conn.WaitReaderBlocked(2 * time.Second)
+		msgs, _ := splitMsgs(s.Conn.Out())
+		emit := func(via string, reqFlags int, cmd uint32, rc int, hb, ee uint32, m *wireMsg) {
+			id++
+			l := ansLine{Ev: "answer", ID: id, Via: via, Req: ansHdr{Flags: reqFlags, Cmd: abs.B3(cmd), App: abs.B4(0), HbH: abs.B4(hb), E2E: abs.B4(ee)}, RC: rc, Stream: -1,
+				Ans: ansObs{Hdr: ansHdr{Cmd: []int{0, 0, 0}, App: []int{0, 0, 0, 0}, HbH: []int{0, 0, 0, 0}, E2E: []int{0, 0, 0, 0}}, First: ansFirst{Sem: []int{}}, Stream: -1}}
+			if m != nil {
+				l.Ans.Hdr = ansHdr{Flags: int(m.Flags), Cmd: abs.B3(m.Cmd), App: abs.B4(m.App), HbH: abs.B4(m.HbH), E2E: abs.B4(m.E2E)}
+				l.Ans.NAVPs = len(m.AVPs)
+				if len(m.AVPs) > 0 {
+					f := m.AVPs[0]
+					l.Ans.First = ansFirst{Code: int(f.Code), Flags: int(f.Flags), Sem: []int{}}
+					if len(f.Payload) == 4 {
+						l.Ans.First.Sem = abs.Limbs32(be32(f.Payload))
+					}
+				}
+			}
+			out.Emit(l)
+		}
+		var first *wireMsg
+		if len(msgs) > 0 {
+			first = &msgs[0]
+		}
+		emit("sm-cea:"+kind, int(b[4]), 257, rc, hbh, e2e, first)
+		if kind == "cer_ok" && first != nil {
+			off := len(s.Conn.Out())
+			d := buildDWR(e2e, hbh, r.Intn(2) == 0, peerHost, peerRealm)
+			if pbit {
+				d[4] |= 0x40
+			}
+			s.Conn.Feed(d)
+			s.Conn.WaitOut(off+20, 3*time.Second)
+			s.Conn.WaitReaderBlocked(2 * time.Second)
+			m2, _ := splitMsgs(s.Conn.Out()[off:])
+			var dwa *wireMsg
+			if len(m2) > 0 {
+				dwa = &m2[0]
+			}
+			emit("sm-dwa", int(d[4]), 280, 2001, e2e, hbh, dwa)
+		}
+	}
+	for _, k := range kinds {
+		for _, h := range ids {
+			for _, e := range ids {
+				one(k.name, k.rc, h, e, (h+e)%2 == 1)
+			}
+		}
+	}
+	for i := 0; i < a.N; i++ {
+		k := kinds[r.Intn(len(kinds))]
+		one(k.name, k.rc, r.Uint32(), r.Uint32(), r.Intn(2) == 0)
 	}
 	return nil
 }
